@@ -237,8 +237,8 @@ Proof. intros H. unfold export_gated. destruct (export_value o); [exact H|]. clt
 
 Definition api_ok (api : option string) : bool := match api with Some a => name_ok a | None => true end.
 
-Lemma unimock_params_cl api im fns :
-  api_ok api = true -> Forall (fun tf => cl (unmock_entry tf)) fns -> cl (unimock_params api im fns).
+Lemma unimock_params_cl' api im fns :
+  api_ok api = true -> (im = MRawTrait \/ Forall (fun tf => cl (unmock_entry tf)) fns) -> cl (unimock_params api im fns).
 Proof.
   intros Ha Hf. unfold unimock_params. apply cl_app; [clt|]. apply cl_TG; [|exact cl_nil]. apply cl_join; [clt|].
   apply Forall_app. split; [repeat constructor|]. apply Forall_app. split.
@@ -250,9 +250,13 @@ Proof.
                             end).
     { destruct fns as [|tf fns']; [constructor|]. constructor; [|constructor].
       apply cl_TId; [reflexivity|]. apply cl_TP. apply cl_TG; [|exact cl_nil]. apply cl_join; [clt|].
-      apply Forall_map. exact Hf. }
+      apply Forall_map. destruct Hf as [->|Hf]; [|exact Hf]. discriminate. }
     destruct im; try exact Hu. constructor.
 Qed.
+
+Lemma unimock_params_cl api im fns :
+  api_ok api = true -> Forall (fun tf => cl (unmock_entry tf)) fns -> cl (unimock_params api im fns).
+Proof. intros Ha Hf. apply unimock_params_cl'; auto. Qed.
 
 Lemma trait_attrs_cl o mode subs v name tg colon supers fns im :
   (negb (unimock_value o) || api_ok (o_mock_api o)) = true ->
@@ -296,12 +300,17 @@ Proof.
                      (rev (future_head ++ r ++ [pc ">"] ++ [pc "+"] ++ abs_path ["core"; "marker"; "Send"])) = true).
       { rewrite !app_assoc, rev_app_distr. apply is_prefix_app. }
       rewrite Hp. rewrite !app_length.
-      replace (List.length future_head + (List.length r + (List.length [pc ">"] + (List.length [pc "+"] + List.length (abs_path ["core"; "marker"; "Send"])))) - List.length r - 1 - 10)
-        with (List.length future_head + 0) by (cbn; lia).
+      change (List.length future_head) with 13. change (List.length (abs_path ["core"; "marker"; "Send"])) with 9.
+      cbn [List.length].
+      replace (13 + (List.length r + (1 + (1 + 9))) - List.length r - 1 - 10) with (List.length future_head + 0)
+        by (change (List.length future_head) with 13; lia).
       rewrite firstn_app_2. cbn [firstn]. rewrite app_nil_r. unfold cl. reflexivity.
     + rewrite !app_length. cbn [List.length app].
-      match goal with |- cl (firstn ?n _) =>
-        assert (Hn : n <= List.length future_head) by (cbn; destruct (is_prefix _ _); lia); revert Hn; generalize n end.
+      match goal with |- context [if ?c then 10 else 0] => generalize (if c then 10 else 0) end. intros k0.
+      change (List.length future_head) with 13.
+      assert (Hn : 13 + (List.length r + (1 + 0)) - List.length r - 1 - k0 <= List.length future_head)
+        by (change (List.length future_head) with 13; lia).
+      revert Hn. generalize (13 + (List.length r + (1 + 0)) - List.length r - 1 - k0).
       intros n Hn. rewrite firstn_app. replace (n - List.length future_head) with 0 by lia.
       cbn [firstn]. rewrite app_nil_r. apply cl_firstn. unfold cl. reflexivity.
   - constructor; [|constructor]. unfold future_output. destruct (future_send o); unfold cl; reflexivity.
@@ -318,3 +327,174 @@ Qed.
 
 Lemma combine_nil_r {A B} (l : list A) : combine l (@nil B) = [].
 Proof. destruct l; reflexivity. Qed.
+
+Lemma existsb_false_cl L : existsb (mentions NB) L = false -> Forall cl L.
+Proof.
+  induction L as [|x L IH]; intros H; [constructor|]. cbn [existsb] in H. apply orb_false_iff in H as [H1 H2].
+  constructor; [exact H1 | apply IH; exact H2].
+Qed.
+
+(** ** side conditions: the user's own identifiers and tokens that end up in the scanned regions *)
+Definition c14_fn_side (o : opts) (h : head) (sigs : list sig) : bool :=
+  forallb (names_ok_sig (no_deps_value o)) sigs &&
+  (negb (unimock_value o) || api_ok (o_mock_api o)) &&
+  negb (existsb (mentions NB) (filter is_trait_sub (h_attrs h))).
+
+(** concrete dependencies: the impl block's first parameter and self type are the user's *)
+Definition c14_concrete_side (nd : bool) (s : sig) : bool :=
+  negb (is_concrete (deps_kind nd s)) ||
+  (negb (mentions NB (match lifted_params (s_gen s) with p :: _ => print_gparam p | [] => [] end)) &&
+   negb (mentions NB (print_fty (strip_refs (first_ty s))))).
+
+Definition c14_trait_side (a : trait_attr) (h : head) (t : item_trait) : bool :=
+  name_ok (t_name t) && forallb name_ok (map gp_name (p_items (g_params (t_gen t)))) &&
+  (match ta_impl_trait a with Some it => name_ok it | None => true end) &&
+  (match ta_delegate a with Some (ByTrait d) => name_ok d | _ => true end) &&
+  forallb (fun '(_, s) => name_ok (s_name s) && forallb name_ok (plain_names (p_items (s_inputs s)))) (trait_sigs t) &&
+  (negb (unimock_value (ta_opts a)) || api_ok (o_mock_api (ta_opts a))) &&
+  negb (existsb (mentions NB) (filter is_mock_attr (h_attrs h))).
+
+Definition c14_side (c : ctx) : bool :=
+  match x_input c with
+  | InFn h s _ =>
+      match fn_opts c with
+      | Some o => c14_fn_side o h [s] && c14_concrete_side (no_deps_value o) s
+      | None => true
+      end
+  | InMod h _ _ _ _ =>
+      match fn_opts c, source_fns (x_input c) with
+      | Some o, Some src => c14_fn_side o h (map sig_of src)
+      | _, _ => true
+      end
+  | InImpl _ _ _ _ _ _ =>
+      match source_fns (x_input c) with
+      | Some src => forallb (names_ok_sig false) (map sig_of src)
+      | None => true
+      end
+  | InTrait h t => match trait_attr_of c with Some a => c14_trait_side a h t | None => true end
+  | _ => true
+  end.
+
+(** ** fn / mod: the regions *)
+Lemma impl_t_param_cl bv : cl (print_gparam (impl_t_param bv)).
+Proof. destruct bv; unfold cl; reflexivity. Qed.
+
+Lemma self_ty_generic_cl o : cl (self_ty MGeneric INone o).
+Proof. unfold self_ty. destruct (mockable o); unfold cl; reflexivity. Qed.
+
+Lemma trait_sigs_outs o ti mode subs lit v name tg colon supers fns im :
+  map snd (trait_sigs (gen_trait_def o ti mode subs lit v name tg colon supers fns im))
+  = map (fun s' => make_trait_fn_sig s' subs o) (map tf_sig fns).
+Proof. rewrite trait_sigs_gen_trait_def, !map_map. reflexivity. Qed.
+
+Lemma Forall2_map_r {A B C} (R : A -> C -> Prop) (f : B -> C) : forall l l',
+  Forall2 (fun a b => R a (f b)) l l' -> Forall2 R l (map f l').
+Proof. induction 1; cbn [map]; constructor; assumption. Qed.
+
+Lemma fnmod_common o h sigs fns tref tg im mode v name ib :
+  Forall2 (fn_ok RSelfRef o) sigs fns -> c14_fn_side o h sigs = true ->
+  gen_impl_block o tref INone tg im mode (h_attrs h) fns = Ok ib ->
+  Forall cl (map (fun '(_, _, b) => b) (impl_fns ib) ++
+             t_attrs (gen_trait_def o TPlain mode (h_attrs h) None v name tg false pempty fns im)) /\
+  Forall cl (rewritten_outputs sigs
+               (map snd (trait_sigs (gen_trait_def o TPlain mode (h_attrs h) None v name tg false pempty fns im)))).
+Proof.
+  intros Hok Hside Hib. unfold c14_fn_side in Hside.
+  apply andb_true_iff in Hside as [Hside S3]. apply andb_true_iff in Hside as [S1 S2].
+  apply negb_true_iff, existsb_false_cl in S3.
+  destruct (gen_impl_block_fns _ _ _ _ _ _ _ _ _ Hib) as (argss & Fa & Hfns & _).
+  destruct (fns_cl INone im _ _ _ _ _ Hok S1 Fa) as (C1 & C2 & C3).
+  split.
+  - apply Forall_app. split; [rewrite Hfns; exact C1|]. apply trait_attrs_cl; assumption.
+  - rewrite trait_sigs_outs. apply rewritten_cl. apply Forall2_map_r. exact C3.
+Qed.
+
+Lemma good_na : good na.
+Proof. unfold good. cbn. discriminate. Qed.
+
+Lemma good_decided_cl regions : Forall cl regions -> good (decided (negb (existsb (mentions ["dyn"; "Box"]) regions)) regions).
+Proof.
+  intros H. unfold good. cbn [decided v_app v_det v_holds]. intros _. split; [reflexivity|].
+  apply negb_true_iff. exact (existsb_cl _ H).
+Qed.
+
+Lemma c14_fn_case v attr h s body items :
+  expand_items v attr (InFn h s body) = Ok items -> c14_side (mkCtx v attr (InFn h s body)) = true ->
+  good (view_C14 (mkCtx v attr (InFn h s body)) items).
+Proof.
+  intros H Hside. destruct (expand_fn_inv _ _ _ _ _ _ H) as (a & tf & tg & mode & ib & Ha & Hz & Hm & Hib & ->).
+  unfold c14_side, fn_opts in Hside. cbn [x_input x_attr x_variant] in Hside. rewrite Ha in Hside.
+  apply andb_true_iff in Hside as [S1 S2]. set (o := apply_variant v (fa_opts a)) in *.
+  unfold view_C14. cbn [x_input]. rewrite parts_fn. cbn [dynamic_requested x_input].
+  destruct (contains_async_trait (h_attrs h)); [exact good_na|].
+  cbn [source_fns map generated_regions]. fold (merged_sig h s).
+  apply good_decided_cl.
+  assert (Hok : Forall2 (fn_ok RSelfRef o) [merged_sig h s] [tf])
+    by (constructor; [exact (fn_ok_single _ _ _ _ _ _ Hz) | constructor]).
+  destruct (fnmod_common o h [merged_sig h s] [tf] _ _ _ _ (fa_vis a) (fa_trait a) _ Hok S1 Hib) as [C1 C2].
+  apply Forall_app. split; [|exact C2]. apply Forall_app. split; [|exact C1].
+  destruct (gen_impl_block_fns _ _ _ _ _ _ _ _ _ Hib) as (argss & _ & _ & _ & _ & Hself & Hgen & _).
+  rewrite Hself. unfold first_param_toks. rewrite Hgen. cbn [g_params p_items p_of_list].
+  destruct mode as [|ty].
+  - constructor; [apply impl_t_param_cl|]. constructor; [apply self_ty_generic_cl | constructor].
+  - cbn [with_t_of impl_params app self_ty].
+    unfold detect_trait_dependency_mode in Hm. cbn [first_concrete] in Hm.
+    destruct (tf_deps tf) eqn:Ed; try discriminate Hm. injection Hm as ->.
+    rewrite (fn_concrete_tg _ _ _ _ _ _ Hz Ed). change (s_gen (merged_sig h s)) with (s_gen s).
+    (* the concrete type is the stripped first parameter type *)
+    destruct (analyze_inv _ _ _ _ _ _ Hz) as (deps & s' & Hd & _ & Etf). subst tf. cbn [tf_deps] in Ed. subst deps.
+    destruct (analyze_deps_kind _ _ _ _ _ Hd) as [(_ & E & _)|(_ & _ & _ & Hag)]; [discriminate E|].
+    rewrite deps_kind_merged in Hag. unfold c14_concrete_side in S2. fold o in Hag.
+    destruct (deps_kind (no_deps_value o) s) as [[n|] b|t|].
+    + destruct Hag as (_ & b' & E). discriminate E.
+    + destruct Hag as (E & _). discriminate E.
+    + destruct Hag as (E & Et & _). injection E as E. rewrite E, Et. cbn [is_concrete negb orb] in S2.
+      apply andb_true_iff in S2 as [S21 S22]. apply negb_true_iff in S21, S22.
+      constructor; [exact S21|]. constructor; [exact S22 | constructor].
+    + destruct Hag.
+Qed.
+
+Lemma map_sig_of l : map (fun '(_, _, s, _) => s) l = map sig_of l.
+Proof. apply map_ext. intros [[[a v] s] b]. reflexivity. Qed.
+
+Lemma c14_mod_case v attr h name body sigs sf items :
+  expand_items v attr (InMod h name body sigs sf) = Ok items -> c14_side (mkCtx v attr (InMod h name body sigs sf)) = true ->
+  good (view_C14 (mkCtx v attr (InMod h name body sigs sf)) items).
+Proof.
+  intros H Hside.
+  destruct (expand_mod_inv _ _ _ _ _ _ _ _ H) as (_ & bitems & fl & a & fns0 & tg & mode & ib & Hs & Ha & Hz & Hm & Hib & ->).
+  unfold c14_side, fn_opts in Hside. cbn [x_input x_attr x_variant source_fns] in Hside. rewrite Ha, Hs in Hside.
+  set (o := apply_variant v (fa_opts a)) in *.
+  unfold view_C14. cbn [x_input]. rewrite parts_mod. cbn [dynamic_requested x_input].
+  destruct (contains_async_trait (h_attrs h)); [exact good_na|].
+  cbn [source_fns generated_regions]. rewrite Hs, map_sig_of.
+  apply good_decided_cl.
+  pose proof (with_cfg_attrs_fn_ok _ _ _ _ (body_fns bitems) (analyze_all_fn_ok _ _ _ _ _ _ Hz)) as Hok.
+  destruct (fnmod_common o h _ _ _ _ _ _ (fa_vis a) (fa_trait a) _ Hok Hside Hib) as [C1 C2].
+  apply Forall_app. split; [|exact C2]. apply Forall_app. split; [|exact C1].
+  destruct (gen_impl_block_fns _ _ _ _ _ _ _ _ _ Hib) as (argss & _ & _ & _ & _ & Hself & Hgen & _).
+  rewrite Hself. unfold first_param_toks. rewrite Hgen. rewrite (detect_generic _ _ _ Hm) by discriminate.
+  constructor; [apply impl_t_param_cl|]. constructor; [apply self_ty_generic_cl | constructor].
+Qed.
+
+Lemma c14_impl_case v attr h tp st body sigs sf items :
+  expand_items v attr (InImpl h tp st body sigs sf) = Ok items ->
+  c14_side (mkCtx v attr (InImpl h tp st body sigs sf)) = true ->
+  good (view_C14 (mkCtx v attr (InImpl h tp st body sigs sf)) items).
+Proof.
+  intros H Hside.
+  destruct (expand_impl_inv _ _ _ _ _ _ _ _ _ H) as (_ & bitems & fl & a & fns0 & tg & mode & ib & Hs & Ha & Hz & Hm & Hib & ->).
+  cbv zeta in Hz, Hm, Hib.
+  unfold c14_side in Hside. cbn [x_input source_fns] in Hside. rewrite Hs in Hside.
+  unfold view_C14. cbn [x_input]. rewrite parts_impl.
+  destruct (dynamic_requested _); [exact good_na|].
+  cbn [source_fns generated_regions]. rewrite Hs, map_sig_of. unfold rewritten_outputs. rewrite combine_nil_r. cbn [flat_map].
+  rewrite app_nil_r. apply good_decided_cl.
+  pose proof (with_cfg_attrs_fn_ok _ _ _ _ (body_fns bitems) (analyze_all_fn_ok _ _ _ _ _ _ Hz)) as Hok.
+  destruct (gen_impl_block_fns _ _ _ _ _ _ _ _ _ Hib) as (argss & Fa & Hfns & _ & _ & _ & Hgen & _).
+  rewrite <- (impl_no_deps v _ _ Ha) in Hside.
+  destruct (fns_cl (match ia_kind a with KStatic => IStatic st | KDynRef => IDynamic st end) MImplBlock _ _ _ _ _ Hok Hside Fa) as (C1 & _ & _).
+  apply Forall_app. split; [|rewrite Hfns; exact C1].
+  unfold first_param_toks. rewrite Hgen. rewrite (detect_generic _ _ _ Hm) by discriminate.
+  constructor; [apply impl_t_param_cl | constructor].
+Qed.
